@@ -34,7 +34,7 @@
                   mapping_pack_removes_only_R (sentence 1 in full), mapping_pack_idempotent,
                   mapping_pack_earlier_refused, mapping_pack_empty_noop            full
 -/
-import Proofs.PackIdem
+import Proofs.PackIdemGC
 namespace Props.C07
 open ZodbModel ZodbModel.Pack Proofs.Pack
 
@@ -121,20 +121,23 @@ theorem pack_preserves_loads_weakNR_false :
     (reachListAt_sound (L := [1, 0]) (by decide) 1).1 (by decide), by decide, by decide⟩
 
 /-- **Sentence 3, partial** (same time).  Packing again to the same time with the same gc flag
-    changes nothing (it is refused as redundant, fails, or frees nothing) — provided no undo record
-    at or before `T` resolves to an un-creation.
+    changes nothing (the second call is refused as redundant, fails again, or frees nothing) —
+    for sorted histories with consistent back pointers in which no undo record at or before `T`
+    resolves to an un-creation.
     FULL STATEMENT (false for FileStorage, see `pack_idempotent_false_for_FileStorage`): without
     `NoBackToTombstone`. -/
-theorem pack_idempotent_partial (h : History) (T : Tid) (hs : Sorted h)
-    (hNB : NoBackToTombstone h T) (h' : History) (hp : packFS h T false = .ok h') :
-    (packFS h' T false).hist h' = h' :=
-  packFS_repack_nogc hs hNB hp (Nat.le_refl T)
+theorem pack_idempotent_partial (h : History) (T : Tid) (gc : Bool) (hs : Sorted h)
+    (hb : BackOK h) (hNB : NoBackToTombstone h T) :
+    (packFS ((packFS h T gc).hist h) T gc).hist ((packFS h T gc).hist h) = (packFS h T gc).hist h :=
+  packFS_idem hs hb hNB
 
-/-- **Sentence 3, partial** (earlier time). -/
-theorem pack_earlier_noop_partial (h : History) (T T' : Tid) (hs : Sorted h)
-    (hNB : NoBackToTombstone h T) (hle : T' ≤ T) (h' : History) (hp : packFS h T false = .ok h') :
-    (packFS h' T' false).hist h' = h' :=
-  packFS_repack_nogc hs hNB hp hle
+/-- **Sentence 3, partial** (earlier time): after a pack to `T` that was carried out, a pack to
+    any `T' ≤ T` changes nothing (refused as redundant when it would cut through the packed
+    transactions, else it frees nothing). -/
+theorem pack_earlier_noop_partial (h h' : History) (T T' : Tid) (gc : Bool) (hs : Sorted h)
+    (hb : BackOK h) (hNB : NoBackToTombstone h T) (hp : packFS h T gc = .ok h') (hle : T' ≤ T) :
+    (packFS h' T' gc).hist h' = h' :=
+  packFS_repack_ok hs hb hNB hp hle
 
 /-- witness of the recorded defect: oid 1 is created (4), un-created by undo (6), re-created (8),
     and that is undone (10) by a record whose back pointer resolves to the un-creation of 6 -/
@@ -162,9 +165,8 @@ theorem pack_empty_noop (h : History) (T : Tid) (gc : Bool)
     rw [List.all_eq_true]; intro t ht; simp [hemp t ht]
   simp [this]
 
-/-- a pack that is refused (redundant), fails (dangling reference: KeyError; gc off with a back
-    pointer to a dropped record: PackError / AssertionError) or frees nothing leaves the history
-    exactly as it was -/
+/-- a pack that is refused (redundant), fails (dangling reference: KeyError) or frees nothing
+    leaves the history exactly as it was -/
 theorem pack_failure_unchanged (h : History) (T : Tid) (gc : Bool)
     (hne : ∀ h', packFS h T gc ≠ .ok h') : (packFS h T gc).hist h = h := by
   cases hp : packFS h T gc with
@@ -255,9 +257,14 @@ example : (packFS exH 5 true).hist exH =
 example : loadBefore exH 1 9 = .some [1] 6 none := by decide
 example : loadBefore exH 1 6 = .some [2] 4 (some 6) := by decide
 example : ReachableAt exH 6 2 := (reachListAt_sound (L := [2, 1, 0]) (by decide) 2).1 (by decide)
-/-- gc off refuses this history (the back pointer's target record would be dropped):
-    AssertionError, nothing changes -/
-example : packFS exH 5 false = .error .assertion := by decide
+/-- gc off drops the non-current revision (2, oid 1) as well; the undo record of tid 6 that pointed
+    to it now carries the data itself (same data, no back pointer) -/
+example : (packFS exH 5 false).hist exH =
+    [⟨2, true, 3, [], [⟨0, some [10], 50, [1, 2], none⟩, ⟨2, some [3], 50, [], none⟩,
+                       ⟨3, some [4], 50, [], none⟩]⟩,
+     ⟨4, true, 3, [], [⟨1, some [2], 50, [2], none⟩]⟩,
+     ⟨6, false, 3, [], [⟨1, some [1], 50, [], none⟩]⟩,
+     ⟨8, false, 3, [], [⟨0, some [11], 50, [1], none⟩]⟩] := by decide
 /-- MappingStorage on the witness of the FileStorage defect: the superseded root revision goes,
     revision (2, oid 1) of the garbage object written again at 6 stays -/
 example : (packMapping ⟨exGarbageWritten, none⟩ 5 true).1.h =
